@@ -30,6 +30,21 @@ class BuildError(Exception):
     pass
 
 
+def run_group(cmd, timeout=None):
+    """like run(), but the command gets its own process group, which is killed as a whole on time-out (the command may be a wrapper such as /usr/bin/time)"""
+    import signal
+    t0 = time.time()
+    p = subprocess.Popen(cmd, stdout=subprocess.PIPE, stderr=subprocess.PIPE, start_new_session=True)
+    try:
+        o, e = p.communicate(timeout=timeout)
+        return p.returncode, o.decode('utf8', 'replace'), e.decode('utf8', 'replace'), time.time() - t0
+    except subprocess.TimeoutExpired:
+        try: os.killpg(p.pid, signal.SIGKILL)
+        except OSError: pass
+        o, e = p.communicate()
+        return -9, o.decode('utf8', 'replace'), 'TIMEOUT', time.time() - t0
+
+
 def run(cmd, timeout=None, cwd=None, env=None, stdin=None):
     t0 = time.time()
     try:
@@ -240,19 +255,23 @@ class TU:
                '--verbosity', '8'] + CBMC_FLAGS + list(extra)
         if trace_property:
             cmd += ['--trace', '--property', trace_property, '--json-ui']
-        rc, out, err, dt = run(cmd, timeout=timeout)
+        cmd = ['/usr/bin/time', '-f', 'VF_RSS_KB %M'] + cmd          # peak memory of every query is recorded (evidence: max_rss_mb per unit)
+        rc, out, err, dt = run_group(cmd, timeout=timeout)
         solver = 'minisat (cbmc default)'
         if rc == -9 and '--sat-solver' not in cmd:
             # the propositional instance of a vector is occasionally hard for MiniSat (measured: > 900 s) and trivial for CaDiCaL (5 s): second back end before giving up
-            rc, out, err, dt2 = run(cmd + ['--sat-solver', 'cadical'], timeout=timeout)
+            rc, out, err, dt2 = run_group(cmd + ['--sat-solver', 'cadical'], timeout=timeout)
             dt += dt2; solver = 'cadical (after a MiniSat time-out)'
         res = {'entry': entry, 'choices': list(choices), 'wall_s': round(dt, 2), 'rc': rc, 'cmd': ' '.join(cmd), 'sat_backend': solver}
         try:
             os.unlink(sk)
         except OSError:
             pass
-        if rc == -9:
-            res['status'] = 'timeout'
+        m_rss = re.search(r'VF_RSS_KB (\d+)', err or '')
+        res['rss_mb'] = int(m_rss.group(1)) // 1024 if m_rss else 0
+        if rc == -9 or (rc in (137, -9, 9) and not re.search(r'VERIFICATION (SUCCESSFUL|FAILED)', out)):
+            # killed: by our time limit, or (well before it) by the kernel's out-of-memory killer when too many large queries run side by side
+            res['status'] = 'timeout' if dt >= 0.9 * timeout else 'killed'
             return res
         if trace_property:
             try:
